@@ -1,4 +1,4 @@
-(* C13 -- Grouping never loses or alters a finding (model M2).  The pretty-printing half of C13 is decided by
+(* C13 -- Grouping never loses or alters a finding (model M2); pretty printing (model M15) at the end of the file.  Formerly decided by
    the correspondence/oracle run only (known finding F9), see DESIGN.md. *)
 From Coq Require Import List Bool Arith Permutation.
 From NM Require Import Diag.
